@@ -16,6 +16,14 @@ let rec nth_error l = function
            | [] -> None
            | _ :: l0 -> nth_error l0 n0)
 
+(** val removelast : 'a1 list -> 'a1 list **)
+
+let rec removelast = function
+| [] -> []
+| a :: l0 -> (match l0 with
+              | [] -> []
+              | _ :: _ -> a :: (removelast l0))
+
 (** val rev : 'a1 list -> 'a1 list **)
 
 let rec rev = function
@@ -46,6 +54,12 @@ let rec fold_left f l a0 =
   match l with
   | [] -> a0
   | b :: t -> fold_left f t (f a0 b)
+
+(** val fold_right : ('a2 -> 'a1 -> 'a1) -> 'a1 -> 'a2 list -> 'a1 **)
+
+let rec fold_right f a0 = function
+| [] -> a0
+| b :: t -> f b (fold_right f a0 t)
 
 (** val existsb : ('a1 -> bool) -> 'a1 list -> bool **)
 
